@@ -1101,6 +1101,12 @@ class HttpPayloadParser:
                 # toss the CRLF at the end of the chunk
                 if self._chunk == ChunkState.PARSE_CHUNKED_CHUNK_EOF:
                     if self._lax and chunk.startswith(b"\r"):
+                        if len(chunk) == 1:
+                            # Keep the CR until its LF arrives, or a second
+                            # CR would be dropped as well on the next read.
+                            self._chunk_tail = chunk
+                            self._paused = False
+                            return PayloadState.PAYLOAD_NEEDS_INPUT, b""
                         chunk = chunk[1:]
                     if chunk[: len(SEP)] == SEP:
                         chunk = chunk[len(SEP) :]
